@@ -302,7 +302,7 @@ def equivalence(run, syn, helper, start, n_max, budget_s, validate=3, M=4):
                 ids = [m.eval(t, model_completion=True).as_long() for t in toks]
                 texts = [syn.lexeme(a, p) for p, a in enumerate(ids)]
                 exp_src = sexpr_from_records(m, es, kinds, S_top, (0, n), texts, S_E)
-                got = real_parse(syn, helper, start, texts)
+                got = norm_real(real_parse(syn, helper, start, texts))
                 want = expected_real(start, exp_src)
                 run.extra["traces_validated_against_impl"] = run.extra.get("traces_validated_against_impl", 0) + 1
                 if got != want:
